@@ -238,7 +238,7 @@ func (d *DFA) SearchAtAnchored(cache *DFACache, haystack []byte, at int) int {
 	// Get ANCHORED start state (requires match to start exactly at 'at')
 	currentState := d.getStartState(cache, haystack, at, true)
 	if currentState == nil {
-		return d.nfaFallback(haystack, at)
+		return d.nfaFallbackAnchored(haystack, at)
 	}
 
 	lastMatch := -1
@@ -271,14 +271,14 @@ func (d *DFA) SearchAtAnchored(cache *DFACache, haystack []byte, at int) int {
 		case InvalidState:
 			currentState = cache.getState(sid)
 			if currentState == nil {
-				return d.nfaFallback(haystack, at)
+				return d.nfaFallbackAnchored(haystack, at)
 			}
 			nextState, err := d.determinize(cache, currentState, b)
 			if err != nil {
 				if isCacheCleared(err) {
 					currentState = d.getStartState(cache, haystack, pos, true)
 					if currentState == nil {
-						return d.nfaFallback(haystack, at)
+						return d.nfaFallbackAnchored(haystack, at)
 					}
 					sid = currentState.id
 					ft = cache.flatTrans
@@ -286,7 +286,7 @@ func (d *DFA) SearchAtAnchored(cache *DFACache, haystack []byte, at int) int {
 					pos--
 					continue
 				}
-				return d.nfaFallback(haystack, at)
+				return d.nfaFallbackAnchored(haystack, at)
 			}
 			if nextState == nil {
 				return lastMatch
@@ -1632,6 +1632,17 @@ func (d *DFA) nfaFallback(haystack []byte, startPos int) int {
 	return end
 }
 
+// nfaFallbackAnchored is nfaFallback for anchored searches: only a match that
+// starts exactly at 'at' counts (the leftmost match of an unanchored search
+// starts at 'at' whenever any match does).
+func (d *DFA) nfaFallbackAnchored(haystack []byte, at int) int {
+	start, end, matched := d.pikevm.SearchAt(haystack, at)
+	if !matched || start != at {
+		return -1
+	}
+	return end
+}
+
 // matchesEmpty checks if the pattern matches an empty string
 func (d *DFA) matchesEmpty(cache *DFACache) bool {
 	// With 1-byte match delay, the start state is never tagged as match.
@@ -2048,8 +2059,7 @@ func (d *DFA) IsMatchReverse(cache *DFACache, haystack []byte, start, end int) b
 
 	currentState := d.getStartStateForReverse(cache, haystack, end)
 	if currentState == nil {
-		_, _, matched := d.pikevm.Search(haystack[start:end])
-		return matched
+		return d.nfaFallbackReverse(haystack, start, end) >= 0
 	}
 
 	// With 1-byte match delay, start states are never match states.
@@ -2076,16 +2086,14 @@ func (d *DFA) IsMatchReverse(cache *DFACache, haystack []byte, start, end int) b
 		case InvalidState:
 			currentState = cache.getState(sid)
 			if currentState == nil {
-				_, _, matched := d.pikevm.Search(haystack[start:end])
-				return matched
+				return d.nfaFallbackReverse(haystack, start, end) >= 0
 			}
 			nextState, err := d.determinize(cache, currentState, b)
 			if err != nil {
 				if isCacheCleared(err) {
 					currentState = d.getStartStateForReverse(cache, haystack, at+1)
 					if currentState == nil {
-						_, _, matched := d.pikevm.Search(haystack[start:end])
-						return matched
+						return d.nfaFallbackReverse(haystack, start, end) >= 0
 					}
 					sid = currentState.id
 					ft = cache.flatTrans
@@ -2093,8 +2101,7 @@ func (d *DFA) IsMatchReverse(cache *DFACache, haystack []byte, start, end int) b
 					at++ // Will be decremented by for-loop
 					continue
 				}
-				_, _, matched := d.pikevm.Search(haystack[start:end])
-				return matched
+				return d.nfaFallbackReverse(haystack, start, end) >= 0
 			}
 			if nextState == nil {
 				return false
@@ -2162,10 +2169,20 @@ func (d *DFA) getStartStateForReverse(cache *DFACache, haystack []byte, end int)
 
 // nfaFallbackReverse handles NFA fallback for reverse search.
 func (d *DFA) nfaFallbackReverse(haystack []byte, start, end int) int {
-	// For reverse fallback, we need to search the region and find match start
-	matchStart, _, matched := d.pikevm.Search(haystack[start:end])
-	if !matched {
+	// d.nfa is the REVERSED automaton: it has to read the region backwards,
+	// starting exactly at 'end', and the leftmost match start corresponds to its
+	// longest match. Simulate it on a reversed copy of the region with a
+	// private PikeVM in longest mode (this path is rare: cache exhausted).
+	n := end - start
+	rev := make([]byte, n)
+	for i := range rev {
+		rev[i] = haystack[end-1-i]
+	}
+	vm := nfa.NewPikeVM(d.nfa)
+	vm.SetLongest(true)
+	revStart, revEnd, matched := vm.SearchAt(rev, 0)
+	if !matched || revStart != 0 {
 		return -1
 	}
-	return start + matchStart
+	return end - revEnd
 }
